@@ -524,6 +524,53 @@ class Frozen(Model):
         raise Unsupported("frozen distribution attribute %s" % name)
 
 
+def _replay_random_then_bad(clause, m):
+    """a dict that gives one parameter a distribution and misspells another: rejected, and the model must go on drawing from the
+    earlier definition"""
+    import numpy as np
+    import scipy.stats as st
+    from contracts import native
+    from standins import c09 as sc
+    bad = []
+    try:
+        mdl, names = sc._model(2)
+        with native.quiet():
+            mdl.parameters = {names[0]: st.gamma(a=2.0, scale=0.2), names[1]: 1.0}
+            before = mdl._stochasticParam
+            try:
+                mdl.parameters = {names[0]: st.gamma(a=3.0, scale=0.2), 'zeta': 0.3}
+                bad.append("the misspelt dict was accepted")
+            except Exception:
+                pass
+            if mdl._stochasticParam is not before:
+                bad.append("after the rejected input the model draws from the REJECTED definition (keys %s)" % list(mdl._stochasticParam))
+            try:
+                mdl.parameters = mdl._stochasticParam         # what solve_determ / simulate_param do before every run
+            except Exception as e:
+                bad.append("re-drawing the parameters now raises %s: %s" % (type(e).__name__, e))
+    except Exception as e:
+        bad.append("raises %s: %s" % (type(e).__name__, e))
+    return {'reproduced': bool(bad), 'observed': bad[:3], 'input': "m.parameters = {'beta': gamma(2, scale=.2), 'gamma': 1.0}; m.parameters = {'beta': gamma(3, scale=.2), 'zeta': 0.3} (rejected); re-draw"}
+
+
+@contract('C09/parameters/reject-unknown-dict-key/after-a-random-value', ['C09', 'C16'], SETTER, replay=_replay_random_then_bad)
+def reject_after_random(vc):
+    """a dict whose first value is a distribution and whose second key is not a parameter: rejected; the values in use, the stored
+    holder AND the remembered random definition are what they were (the next run re-assigns that definition)"""
+    nP, obj = model(vc)
+    D0, PV0 = _prior(vc, obj, nP)
+    nm, badn = vc.int('key_name'), vc.int('bad_name')
+    vc.require('the first key names a declared parameter, the second is not in the parameter dictionary', z3.And(pdeclared(nm), z3.Not(indict(badn))))
+    prior_def = obj.fields.get('_stochasticParam')
+    final_loop(vc, obj, nP, reject=True)
+    inp = {SName(nm): Frozen(vc.real('dist')), SName(badn): vc.real('value')}
+    out = vc.call(vc.func(), obj, inp)
+    vc.ensure('rejected with an error', not out.returned)
+    _unchanged(vc, obj, PV0)
+    vc.ensure('rejected: the remembered random definition is the earlier one, not the rejected input', obj.fields.get('_stochasticParam') is prior_def)
+    vc.canary('canary: reachable', z3.BoolVal(False))
+
+
 def make_random_form(form):
     @contract('C16/parameters/random/%s' % form, ['C16', 'C09'], SETTER, also=['pygom.utilR.distn:rgamma'] if form != 'frozen' else [])
     def random_form(vc):
